@@ -72,8 +72,13 @@ class Extract:
                 rn = [e for e in evs if e[0] == "range_next"]
                 if not ms:
                     continue
+                nk0 = norm_key(self.eng, ms[-1][2])
+                blk0 = [p for p in nk0 if p[0] == "block"]
+                start0 = blk0[0][2] if len(blk0) == 1 else None
+                sem_back = walk_direction(self.eng, lp, b, start0) if start0 is not None else None
                 if rn:
-                    out.append({"order": i, "head": lp["head"], "lid": lp["lid"], "done": lp["done"], "state": b, "md5": ms[-1], "item": rn[0][2], "back": rn[0][1], "H": lp["H"],
+                    out.append({"order": i, "head": lp["head"], "lid": lp["lid"], "done": lp["done"], "state": b, "md5": ms[-1], "item": rn[0][2],
+                                "back": sem_back if sem_back is not None else rn[0][1], "H": lp["H"], "loop": lp, "start": start0,
                                 "range": (rn[0][4], rn[0][5]) if len(rn[0]) > 5 else None})
                     continue
                 # hand-written counter loop: block index from the key block's start, direction from the counter's step
@@ -99,7 +104,7 @@ class Extract:
                 if back is None:
                     continue
                 out.append({"order": i, "head": lp["head"], "lid": lp["lid"], "done": lp["done"], "state": b, "md5": ms[-1], "item": VInt(None, item), "back": back,
-                            "H": lp["H"], "range": None})
+                            "H": lp["H"], "range": None, "loop": lp, "start": start})
         return out
 
 
@@ -171,6 +176,74 @@ def entry_value(X, lin):
         else:
             out = out + e.scale(k)
     return out
+
+
+def subst_heads(eng, lp, st, lin):
+    """`lin` with the head symbols of loop `lp` replaced by the values their leaves hold in state `st` (a back-edge
+    or exit state of that loop); symbols that are not loop-carried in `lp` stay.  None if a leaf cannot be read."""
+    out = Lin.const(lin.c)
+    names = {}
+    for (cell, kp), kind in lp.get("havoc", {}).items():
+        if kind == "int":
+            names[eng.hsym(lp["lid"], cell, kp)] = (cell, kp)
+    for sym, k in lin.t.items():
+        leaf = names.get(sym)
+        if leaf is None:
+            out = out + Lin.sym(sym).scale(k)
+            continue
+        nv = eng.leaf_lin(st, leaf[0], leaf[1])
+        if nv is None:
+            return None
+        out = out + nv.scale(k)
+    return out
+
+
+def walk_direction(eng, lp, b, lin, step=16):
+    """does `lin` (a block start) move up or down by one block from one iteration of loop `lp` to the next?
+    False = upwards, True = downwards, None = not decided"""
+    nxt = subst_heads(eng, lp, b, lin)
+    if nxt is None:
+        return None
+    if eng.ent(b, c_eq(nxt, lin + step)):
+        return False
+    if eng.ent(b, c_eq(nxt, lin - step)):
+        return True
+    return None
+
+
+def coverage_semantic(eng, X, chain):
+    """(problems, undecided) about the blocks keyed by the chain: with B = key block start + 16 (the block that is XORed
+    with that key), an upward walk must start at B = 16 and leave the loop with B = |buffer|; a downward walk must
+    start at B = |buffer| - 16 and leave with B = 0"""
+    probs, und = [], []
+    for c in chain:
+        lp = c.get("loop")
+        st = c["state"]
+        buf = st.cells.get(c["buf"]) if c.get("buf") is not None else None
+        k = c.get("start")
+        if lp is None or k is None or not isinstance(buf, VVec) or c.get("back") is None:
+            und.append("block coverage of a chain loop (walk not understood)")
+            continue
+        B = k + 16
+        B0 = entry_value(X, B)
+        exits = [subst_heads(eng, lp, se, B) for se, _bb in lp.get("exits", [])]
+        if not exits or any(e is None for e in exits):
+            und.append("block coverage of a chain loop (exit state not understood)")
+            continue
+        H = lp["H"]
+        if c["back"] is False:
+            if not eng.ent(H, c_eq(B0, Lin.const(16))):
+                probs.append("chain does not start at block 1 (first block keyed at offset %r)" % (B0,))
+            for (se, _bb), e in zip(lp["exits"], exits):
+                if not eng.ent(se, c_eq(e, buf.len)):
+                    probs.append("chain does not reach the last block: it stops with the next block at %r of a %r-octet buffer" % (e, buf.len))
+        else:
+            if not eng.ent(H, c_eq(B0 + 16, buf.len)):
+                probs.append("downward chain does not start at the last block (starts at offset %r of %r)" % (B0, buf.len))
+            for (se, _bb), e in zip(lp["exits"], exits):
+                if not eng.ent(se, c_eq(e, Lin.const(0))):
+                    probs.append("downward chain does not reach block 1 (stops with the next block at %r)" % (e,))
+    return sorted(set(probs)), sorted(set(und))
 
 
 def coverage_facts(eng, X, chain, xs):
